@@ -7,10 +7,10 @@ def errorSites : List (String × String × Bool × Bool) := [
   ("parser.parseHost", "DomainToASCII", true, true),
   ("parser.parseHost", "DomainInvalidCodePoint", true, true),
   ("parser.parseIPv4Number", "IPv4EmptyPart", true, true),
-  ("parser.parseIPv4Number", "IPv4NonDecimalPart", false, true),
   ("parser.parseIPv4", "IPv4EmptyPart", false, true),
   ("parser.parseIPv4", "IPv4TooManyParts", true, true),
   ("parser.parseIPv4", "IPv4NonNumericPart", true, true),
+  ("parser.parseIPv4", "IPv4NonDecimalPart", false, true),
   ("parser.parseIPv4", "IPv4OutOfRangePart", false, true),
   ("parser.parseIPv4", "IPv4OutOfRangePart", true, true),
   ("parser.parseIPv4", "IPv4OutOfRangePart", true, true),
